@@ -44,8 +44,9 @@ enum Scenario {
 enum Driving {
     /// FrameCount(1) per call, audio drained every `drain` frames (0 = never)
     PerFrame { drain: usize, sound: bool, ay: bool },
-    /// FrameCount(n) with the given partition of the run
-    Partition(Vec<usize>),
+    /// FrameCount(n) with the given partition of the run; the second field selects what the host
+    /// stopwatch reads meanwhile and how small the time limit is (FrameCount ignores both)
+    Partition(Vec<usize>, u8),
     /// Max mode: (frames per call) realised through scripted stopwatch readings
     Max(Vec<usize>, u8),
     /// FrameCount(1) + breakpoint every k-th instruction
@@ -324,15 +325,30 @@ fn drive(scn: &Scenario, asset: AssetKind, drv: &Driving, ev: &Events, checkpoin
                 check(&mut m, &mut tr, frame);
             }
         }
-        Driving::Partition(parts) => {
+        Driving::Partition(parts, sw) => {
             m.dbg().mode = DbgMode::Never;
+            // "any host stopwatch readings": a slow host, a stuck or a jumping stopwatch and a tiny
+            // limit must not change how many frames a FrameCount(n) call emulates
+            let limit = match sw {
+                0 => Duration::from_secs(100),
+                1 => Duration::from_micros(1),
+                2 => Duration::from_micros(0),
+                _ => Duration::from_millis(20),
+            };
+            set_stopwatch(match sw {
+                0 => SwScript::Zero,
+                1 => SwScript::Const(3_600_000_000),
+                2 => SwScript::List(vec![0, 5_000_000, 1, u64::MAX / 8, 19_999, 20_001]),
+                _ => SwScript::List(vec![25_000, 0, 40_000, 19_000]),
+            });
             for n in parts {
                 apply(&mut m, frame);
                 m.emu.set_speed(EmulationMode::FrameCount(*n));
-                m.emu.emulate_frames(Duration::from_secs(100)).map_err(|e| format!("emulate_frames: {}", e))?;
+                m.emu.emulate_frames(limit).map_err(|e| format!("emulate_frames: {}", e))?;
                 frame += n;
                 check(&mut m, &mut tr, frame);
             }
+            set_stopwatch(SwScript::Zero);
         }
         Driving::Max(parts, style) => {
             m.dbg().mode = DbgMode::Never;
@@ -462,7 +478,7 @@ fn one_tuple(ctx: &Ctx, rng: &mut Rng, st: &mut St, case: u64) {
     // alternatives
     let mut alts: Vec<(String, Driving, AssetKind, bool)> = vec![];
     alts.push(("repeat".into(), base_drv.clone(), AssetKind::Buffer, true));
-    alts.push(("partition".into(), Driving::Partition(partition(rng, &checkpoints, total, 5)), AssetKind::Buffer, false));
+    alts.push(("partition".into(), Driving::Partition(partition(rng, &checkpoints, total, 5), rng.below(4) as u8), AssetKind::Buffer, false));
     alts.push(("max-mode".into(), Driving::Max(partition(rng, &checkpoints, total, 4), rng.below(4) as u8), AssetKind::Buffer, false));
     let kmax = if rng.bool() { 50 } else { 20000 };
     alts.push(("breaks-every-k".into(), Driving::Breaks(1 + rng.below(kmax)), AssetKind::Buffer, true));
